@@ -54,6 +54,11 @@ def generate(rng, tier):
     if kind == "binary" and not integers:
         kind = "general"
     ub = [1 if (kind == "binary" and j in integers) else rng.choice([1, 2, 3]) for j in range(n)]
+    nearbin = None
+    if kind == "binary" and len(integers) >= 2 and rng.random() < 0.35:
+        # nearly binary: one general-integer variable among binaries (binary detection must not clamp it)
+        nearbin = rng.choice(integers)
+        ub[nearbin] = rng.choice([2, 3])
     m = rng.randrange(0, 7 if n <= 3 else 5)
     A, b = [], []
     for _ in range(m):
@@ -94,6 +99,15 @@ def generate(rng, tier):
         if j != free_var:
             A.append([1 if k == j else 0 for k in range(n)])
             b.append(ub[j])
+    if nearbin is not None and rng.random() < 0.7:
+        j = rng.choice([k for k in integers if k != nearbin])
+        A.append([1 if k == j else 0 for k in range(n)])  # the bound row of a binary listed once more
+        b.append(1)
+    if A and rng.random() < 0.3:  # redundant rows: the same row (often a bound row) listed twice
+        for _ in range(rng.choice([1, 1, 2])):
+            i = rng.randrange(len(A))
+            A.append(list(A[i]))
+            b.append(b[i] + rng.choice([0, 0, 1]))
     if not A:  # solve_milp rejects an empty constraint matrix: keep the instance inside the documented domain
         A.append([-1 if k == (free_var or 0) else 0 for k in range(n)])
         b.append(0)
@@ -104,7 +118,8 @@ def generate(rng, tier):
     configs = []
     for _ in range(4):
         configs.append({
-            "warm": rng.choice(["none", "none", "optimal", "feasible", "infeasible", "wrong_length", "fractional"]),
+            "warm": rng.choice(["none", "none", "optimal", "feasible", "infeasible", "wrong_length", "fractional", "negative_entry",
+                                "negative_entry"]),
             "heuristics": rng.random() < 0.7,
             "lns_iterations": rng.choice([0, 0, 1, 2, 4, 6]),
             "lns_destroy_frac": rng.choice([0.1, 0.3, 0.6, 1.0]),
@@ -216,7 +231,13 @@ def warm_start_for(case, cfg, ref):
         return [0.0] * n
     if w == "optimal":
         pts = [p for p in pts if p[0] == ref["value"]]
-    return [float(v) for v in r.choice(pts)[1]]
+    x = [float(v) for v in r.choice(pts)[1]]
+    if w == "negative_entry":
+        # a point that may satisfy every row and integrality but not x >= 0 (prefer a continuous variable, objective-improving)
+        cont = [j for j in range(n) if j not in case["integers"]]
+        j = r.choice(cont) if cont and r.random() < 0.8 else r.randrange(n)
+        x[j] = -float(r.choice([1, 2, 5]))
+    return x
 
 
 def run_cfg(case, cfg, ref):
